@@ -267,6 +267,7 @@ func scenarioProperty(t *testing.T, prop, proto, rule string, run func(*wire.Sce
 	col := getCollector(prop, rule)
 	runRegress(t, prop)
 	env := wire.NewGenEnv(proto)
+	env.Big = true // the runners treat a message that does not fit a datagram as outside the domain
 	rapid.Check(t, func(t *rapid.T) {
 		sc := env.GenScenario(t, maxSets, maxRecs)
 		v, sig, err := run(&sc)
